@@ -304,7 +304,7 @@ def run_driver(x, env, role, msgs, tamper=None):
     while o:
         n = int.from_bytes(o[:8], "little")
         wr.append(o[8:8 + n]); o = o[8 + n:]
-    k = key.read()
+    k = key.read() if r == 0 else None     # the key is defined only after a successful run
     pool.free()
     return r, k, wr, h[1], outs, len(inc)
 
